@@ -51,6 +51,17 @@ pub(crate) enum CheckedActionFeeError {
         amount: u128,
     },
 
+    #[error(
+        "fee for `{action_name}` action overflowed: base fee `{base}` + multiplier `{multiplier}` \
+         * variable component `{variable_component}` exceeds the maximum representable amount"
+    )]
+    FeeOverflow {
+        action_name: &'static str,
+        base: u128,
+        multiplier: u128,
+        variable_component: u128,
+    },
+
     #[error("internal error: {context}")]
     InternalError {
         context: String,
